@@ -673,6 +673,12 @@ def obligations(tier, seed):
             return
         q = [v if isinstance(v, z3.ExprRef) else z3.BoolVal(bool(v)) for v in viol]
         out.append(R.decide(name, "order", z3.Or(*q) if q else z3.BoolVal(False), [z3.Or(*v) for v in reach_l], bodies=bodies, desc=desc, bounds=bounds, keydetail=keydetail, replay=rp))
+    from . import tryrecv as _tr
+    bt, violt, reacht, badt = _tr.obligations(srv, "stop")
+    emit("order:try_recv:stop-is-reported-as-stopped", bt, violt, {k: v for k, v in reacht.items() if k in ("stop", "stream-end")}, badt,
+         "the WebSocket receive step reports `Stopped` exactly when the stop signal is what completed - whatever the ping bookkeeping says - so the connection drains its started calls "
+         "(graceful_shutdown waits for them only on `Stopped`); `ConnectionClosed` is reported only when the stream ended or the inactivity limit was exceeded",
+         "every outcome of the combined future (stream item / ping tick / stop) over up to three loop rounds; any ping configuration and failure count", "try-recv-stop")
     b, viol, reach, bad = _accept_loop(srv)
     b_, viol_, reach_, bad_ = _serve_with_graceful_shutdown(srv)
     emit("order:serve_with_graceful_shutdown", b_, viol_, reach_, bad_,
